@@ -55,6 +55,32 @@ pub fn cells_over(pool: &[Value]) -> Vec<Cell> {
     out
 }
 
+/// unary cells over the whole pool, binary cells only between values of the same type and DateTime × Duration
+/// (the pairs some operator supports): the dense pools are too large for all ordered pairs
+pub fn cells_same_type(pool: &[Value]) -> Vec<Cell> {
+    let mut out = vec![];
+    for op in UN_OPS {
+        for a in pool {
+            out.push(Cell { op: op.into(), class: "un", a: a.clone(), b: None, expr: mk_un(op, lit(a)) });
+        }
+    }
+    for op in BIN_OPS.iter().chain(LAZY_BIN.iter()) {
+        if *op == "and" || *op == "or" {
+            continue;
+        }
+        let class = if LAZY_BIN.contains(op) { "lazy" } else { "bin" };
+        for a in pool {
+            for b in pool {
+                let same = ty_name(a) == ty_name(b) || (ty_name(a) == "datetime" && ty_name(b) == "duration");
+                if same {
+                    out.push(Cell { op: op.to_string(), class, a: a.clone(), b: Some(b.clone()), expr: mk_bin(op, lit(a), lit(b)) });
+                }
+            }
+        }
+    }
+    out
+}
+
 pub struct CellOutcome {
     pub impl_out: String,
     pub model: ModelReply,
